@@ -121,15 +121,28 @@ func (g *gen) metaNodeScenario() {
 	if err1 != nil || err2 != nil {
 		return
 	}
+	// node 0 plays the metachain for the length of this scenario only: nothing else may be under way while it does
+	// (a message towards an ordinary shard-0 account would find no node), and the ordinary destination lives elsewhere
+	g.drain()
 	g.emit("selfmeta 0 on")
 	g.emitf("raw 0 %s %s %s", hx(ma), hx([]byte(oracle.TokenKey(tokF, 0))), hx(fb))
 	g.emitf("raw 0 %s %s %s", hx(ma), hx([]byte(oracle.TokenKey(tokN, 1))), hx(nb))
-	user := g.pick(g.users)
-	for _, dst := range [][]byte{mb, user} {
+	dsts := [][]byte{mb}
+	for _, u := range g.users {
+		if g.shardOf(u) > 0 {
+			dsts = append(dsts, u)
+			break
+		}
+	}
+	for _, dst := range dsts {
 		g.do(spec{shard: 0, fn: oracle.FnTransfer, caller: ma, rcv: dst, gas: bigGas, args: [][]byte{tokF, {1}}})
 		g.do(spec{shard: 0, fn: oracle.FnNFTTransfer, caller: ma, rcv: ma, gas: bigGas, args: [][]byte{tokN, {1}, {1}, dst}})
 		g.do(spec{shard: 0, fn: oracle.FnMultiTransfer, caller: ma, rcv: ma, gas: bigGas, args: [][]byte{dst, {2}, tokN, {1}, {1}, tokF, {}, {2}}})
 	}
+	// the messages this scenario put in flight are delivered - and, if refused, refunded - while node 0 still IS the
+	// metachain: a node does not change its shard with its own messages under way (a refund towards a metachain
+	// contract addressed to a node that no longer is the metachain would be refused for the address, not for the ledger)
+	g.drain()
 	g.emit("selfmeta 0 off")
 }
 
